@@ -191,17 +191,18 @@ PROPS = {
         monitor_quick=[RF + c + '.rfa' for c in ('ExpFixedRFA', 'LinearAdaptiveRFA', 'ExpAdaptiveRFA', 'CubicSplineRFA', 'LinearFixedRFA')],
         functions=[RF + 'LinearFixedRFA.rfa', RF + 'ExpFixedRFA.rfa', RF + 'PiecewiseConstantRFA.rfa', 'lemma:rfa.linear_fixed.bounds',
                    'lemma:rfa.linear_fixed.monotone', 'lemma:rfa.exp_fixed.bounds', RF + 'LinearAdaptiveRFA.get_adaptive_transition_points',
-                   RF + 'LinearAdaptiveRFA.rfa', 'lemma:rfa.linear_adaptive.bounds']
+                   RF + 'LinearAdaptiveRFA.rfa', 'lemma:rfa.linear_adaptive.bounds', RF + 'ExpAdaptiveRFA.rfa', 'lemma:rfa.exp_adaptive.bounds']
         + [RF + c + '.__init__' for c in ('LinearFixedRFA', 'ExpFixedRFA', 'LinearAdaptiveRFA', 'ExpAdaptiveRFA')],
         level='proof',
-        explanation=("PROVED for LinearFixedRFA, ExpFixedRFA and PiecewiseConstantRFA, all series / spacings / n / windows / linear share / "
-                     "exponent > 0: the code computes the closed forms fv / fe (postconditions linf_values, expf_values; loop invariants "
-                     "over the extended grid); lemmas over the closed forms: plateau at the average (at most a-1 samples differ), every "
-                     "transition sample between the interval's average and the neighbour's on its side (power blends via the power "
-                     "axioms), LinearFixed: monotone steps towards the plateau; window fields of all four constructors; adaptive window "
-                     "sizes within 0..a. BOUNDED (run-time monitoring, not proof): monotonicity of the ExpFixed blends (known finding "
-                     "for exponents < 0.133), LinearAdaptiveRFA, ExpAdaptiveRFA and the spline strategy."),
-        assumptions=[A_REAL, A_LEN, "power axioms P1-P8 for POW(r, a)", "values of LinearAdaptiveRFA / ExpAdaptiveRFA / CubicSplineRFA and monotonicity of ExpFixedRFA: bounded run-time monitoring only",
+        explanation=("PROVED for all four window strategies and PiecewiseConstantRFA, all series (ties included) / spacings / n / windows / "
+                     "linear share / exponent > 0 / adaptive smoothing > 0: the code computes the closed forms fv, fe, fa, fea "
+                     "(postconditions linf_values, expf_values, lina_values, expa_values; loop invariants over the extended grid; adaptive "
+                     "windows as specification functions of the averages); lemmas over the closed forms: plateau at the average between "
+                     "the windows, every transition sample between the interval's average and the neighbour's on its side (power blends "
+                     "via the power axioms), fixed windows: at most a-1 samples differ, LinearFixed: monotone steps; window fields of all "
+                     "constructors; adaptive window sizes within 0..a. BOUNDED (run-time monitoring, not proof): monotonicity of the "
+                     "exponent blends (known finding for exponents < 0.133), the a-1 count for the adaptive strategies, the spline strategy."),
+        assumptions=[A_REAL, A_LEN, "power axioms P1-P8 for POW(r, a)", "CubicSplineRFA, monotonicity of the exponent blends and the a-1 count of the adaptive strategies: bounded run-time monitoring only",
                      "SciPy CubicSpline: assumed interpolating (trusted dependency)"],
     ),
     'C06': dict(
@@ -209,7 +210,7 @@ PROPS = {
         monitor_quick=[RF + c + '.rfa' for c in ('ExpFixedRFA', 'LinearAdaptiveRFA', 'ExpAdaptiveRFA', 'LinearFixedRFA')],
         functions=[M + 'funfit.' + f for f in ('lin_fit', 'exp_fit', 'exp_xy_fit', 'exp_lin_fit', 'lin_exp_xy_fit')]
         + [RF + 'LinearFixedRFA.rfa', RF + 'ExpFixedRFA.rfa', 'lemma:rfa.exp_fixed.bounds', RF + 'LinearAdaptiveRFA.get_adaptive_transition_points',
-           RF + 'LinearAdaptiveRFA.rfa']
+           RF + 'LinearAdaptiveRFA.rfa', RF + 'ExpAdaptiveRFA.rfa']
         + [RF + c + '.__init__' for c in ('LinearFixedRFA', 'ExpFixedRFA', 'LinearAdaptiveRFA', 'ExpAdaptiveRFA')],
         level='proof',
         explanation=("PROVED: the five shape functions equal their closed forms for every exponent and hit both end points; "
@@ -218,23 +219,27 @@ PROPS = {
                      "n, window); adaptive windows: the four cases of the split (both / one / no neighbour differing), trunc-clip "
                      "formula with gamma = (right jump / left jump)^smooth, and for smooth = 1 the side with the larger jump never "
                      "gets the larger window; ExpFixedRFA: the code computes the closed form fe (linear piece, linear/power blend with the "
-                     "given exponent, plateau, power/linear blend, linear piece), whose first sample is the border value. BOUNDED: the "
-                     "application of the windows in the adaptive strategies (run-time monitoring)."),
-        assumptions=[A_REAL, A_LEN, "power axioms P1-P8 for POW(r, a)", "adaptive strategies' values: bounded run-time monitoring only"],
+                     "given exponent, plateau, power/linear blend, linear piece), whose first sample is the border value; LinearAdaptiveRFA and "
+                     "ExpAdaptiveRFA: the same closed forms with the per-interval windows wl / wr (and linear shares trunc(beta*w)) applied, "
+                     "including the tie branches. The run-time monitors remain as a cross-check of the specification against the code."),
+        assumptions=[A_REAL, A_LEN, "power axioms P1-P8 for POW(r, a)"],
     ),
     'C07': dict(
         monitor_clauses=r'_rt_c07',
         monitor_quick=[RF + c + '.rfa' for c in ('PiecewiseConstantRFA', 'LinearFixedRFA', 'ExpFixedRFA', 'LinearAdaptiveRFA', 'ExpAdaptiveRFA', 'CubicSplineRFA')],
         functions=[RF + 'LinearFixedRFA.rfa', RF + 'PiecewiseConstantRFA.rfa', 'lemma:rfa.linear_fixed.equivariance_y', 'lemma:rfa.linear_fixed.equivariance_x',
                    'lemma:rfa.linear_fixed.locality', RF + 'ExpFixedRFA.rfa', 'lemma:rfa.exp_fixed.locality', RF + 'LinearAdaptiveRFA.rfa',
-                   'lemma:rfa.linear_adaptive.locality', 'lemma:rfa.linear_adaptive.equivariance_y',
+                   'lemma:rfa.linear_adaptive.locality', 'lemma:rfa.linear_adaptive.equivariance_y', RF + 'ExpAdaptiveRFA.rfa',
+                   'lemma:rfa.exp_adaptive.locality',
                    RF + 'LinearAdaptiveRFA.get_adaptive_transition_points'],
         level='proof',
         explanation=("PROVED for LinearFixedRFA (relational lemmas over the closed form the code is proved to compute, two strategy "
                      "objects on related data): y -> al*y + be and x -> c*x + d (c > 0) commute with recreation for all real al, be, c, d "
                      "(hence an affine map of the averages with weights summing to one); a value of an interval reads only that "
-                     "interval's and the two adjacent averages; ExpFixedRFA: locality (same statement over its closed form); adaptive windows are "
-                     "computed from absolute jumps with exact zero tests only. PiecewiseConstantRFA: values are the averages themselves. BOUNDED "
+                     "interval's and the two adjacent averages; ExpFixedRFA: locality; LinearAdaptiveRFA: change of units y -> al*y+be for every real "
+                     "al != 0 (intervals with two neighbours on each side) and locality with two neighbours; ExpAdaptiveRFA: locality with two "
+                     "neighbours; adaptive windows are computed from absolute jumps with exact zero tests only. PiecewiseConstantRFA: values are "
+                     "the averages themselves. BOUNDED "
                      "(run-time metamorphic monitoring with exactly representable maps, one-average perturbations) for the other "
                      "strategies."),
         assumptions=[A_REAL, A_LEN, "non-negativity of the weights is the C05 bounds lemma; other strategies: bounded run-time monitoring only"],
